@@ -500,7 +500,7 @@ def rule_S9(ctx: Ctx) -> None:
         def neighbours(c, adj=adj):
             c = tuple(c.data) if isinstance(c, Arr) else tuple(c)
             return Arr([list(x) for x in sorted(adj.get(c, []))])
-        ac = AbstractClass(ctx.index, f"{LM}.LatticeMaze", extra_calls={**MODELS, "np.abs": lambda x: abs(x) if not isinstance(x, Arr) else Arr([abs(y) for y in x.data]),
+        ac = AbstractClass(ctx.index, f"{LM}.LatticeMaze", max_steps=300_000, extra_calls={**MODELS, "np.abs": lambda x: abs(x) if not isinstance(x, Arr) else Arr([abs(y) for y in x.data]),
                                                                        "np.array": MODELS["np.array"]})
         orig_hooks = ac._hooks
 
@@ -560,6 +560,8 @@ RULES = [
     Rule("C02.S6", rule_S6, floor=2, doc="relaxation direction"),
     Rule("C02.S7", rule_S7, floor=2, doc="goal test on pop"),
     Rule("C02.S8", rule_S8, floor=4, doc="bookkeeping stores"),
+    Rule("C02.S10", lambda ctx: __import__("sa.rules.c13", fromlist=["x"]).neighbour_queries_rule("C02.S10", ["C02.S2"], [])(ctx), floor=1,
+         doc="bounded semantic check of the neighbour query the solver expands (supersedes S2's structural judgement of get_coord_neighbors on unrecognised forms)"),
     Rule("C02.S9", rule_S9, floor=1, doc="bounded semantic check: interpreted solver vs BFS on every abstract graph and pair"),
 ]
 
@@ -572,3 +574,13 @@ from sa import exits as _exits  # noqa: E402
 
 RULES.append(Rule("C02.RX", _exits.make_rule("C02", "C02.RX", _exits.SCOPES["C02"]), floor=1,
                   doc="rejection conditions: the anchored functions refuse inputs only under the conditions confirmed on the pinned tree (E16)"))
+
+from sa import exits as _exits_ms  # noqa: E402
+
+RULES.append(Rule("C02.MS", _exits_ms.make_state_rule("C02", "C02.MS", _exits_ms.SCOPES.get("C02", [])), floor=1,
+                  doc="no hidden state on the anchored path (module level, per object, memoising decorators): results do not depend on the history of the process (E17)"))
+
+from sa import exits as _exits_nw  # noqa: E402
+
+RULES.append(Rule("C02.NW", _exits_nw.make_narrowing_rule("C02", "C02.NW", _exits_nw.SCOPES.get("C02", [])), floor=1,
+                  doc="no new narrowing cast (8/16-bit element types) on the anchored path: coordinates, lengths and indices do not wrap (E18)"))
